@@ -47,10 +47,10 @@ def tlaset(xs):
   return "{%s}" % ", ".join('"%s"' % x for x in xs)
 
 
-def stubgen_cfg(top, body, depth, params, sigs, nest, bases, builtins, frags, invs=GEN_INVS):
-  return ("INIT Init\nNEXT Next\nCONSTANTS MaxTop = %d\n MaxBody = %d\n MaxDepth = %d\n"
+def stubgen_cfg(top, body, depth, params, sigs, nest, bases, builtins, frags, invs=GEN_INVS, nxt="Next"):
+  return ("INIT Init\nNEXT %s\nCONSTANTS MaxTop = %d\n MaxBody = %d\n MaxDepth = %d\n"
           " MaxParams = %d\n MaxSigs = %d\n MaxNest = %d\n MaxBases = %d\n Builtins = %s\n"
-          " Frags = %s\n ExportMode = \"final\"\n" % (top, body, depth, params, sigs, nest, bases,
+          " Frags = %s\n ExportMode = \"final\"\n" % (nxt, top, body, depth, params, sigs, nest, bases,
                                                      tlaset(builtins), tlaset(frags))
           + "".join("INVARIANT %s\n" % i for i in invs) + "VIEW StubView\n")
 
@@ -68,6 +68,40 @@ FAMILIES = {
     "methods": stubgen_cfg(1, 1, 0, 1, 1, 2, 0, ["int"], ["class", "func", "flags"]),
 }
 QUICK_FAMILIES = ("classes", "generic-classes", "types", "overloads")
+# special method names (StubGen.tla NextD: BeginDunder / WantDunderProp).  Kept apart from FAMILIES /
+# SIM_CFG, which C12 shares.  name alphabet x kind x first parameter (x flags, overloads, pairs)
+DUNDER_INVS = ("TypeOK", "WellScoped", "TermsOK", "SignaturesOK", "NoDeadEndD", "KindConvention", "ExportInv")
+DUNDER_FAMILIES = {
+    # one special-named method (12 names x 3 kinds x first parameter absent / self / cls / other,
+    # unannotated or annotated with the class) or property per class; module-level functions
+    "dunder-methods": stubgen_cfg(1, 1, 0, 0, 1, 1, 0, ["int"], ["class", "func", "prop", "dunder", "dunder2", "fptype"],
+                                  invs=DUNDER_INVS, nxt="NextD"),
+    # thorough only: the kind-by-name names with flags; two methods per class; two signatures
+    "dunder-flags": stubgen_cfg(1, 1, 0, 0, 1, 1, 0, [], ["class", "func", "dunder", "dunder2", "flags"],
+                                invs=DUNDER_INVS, nxt="NextD"),
+    "dunder-pairs": stubgen_cfg(1, 2, 0, 0, 1, 1, 0, [], ["class", "func", "dunder"], invs=DUNDER_INVS, nxt="NextD"),
+    "dunder-overloads": stubgen_cfg(1, 1, 0, 1, 2, 1, 0, [], ["class", "func", "dunder"], invs=DUNDER_INVS, nxt="NextD"),
+}
+QUICK_DUNDER = ("dunder-methods",)
+DUNDER_FRAGS = ALL_FRAGS + ("dunder", "dunder2", "fptype")
+SIM_DUNDER_CFG = stubgen_cfg(4, 3, 1, 2, 2, 2, 1, ["int", "str", "NoneType"], DUNDER_FRAGS,
+                             invs=("WellScoped", "TermsOK", "SignaturesOK", "KindConvention", "ExportInv"), nxt="NextD")
+# the cells of the cross that must have been replayed (vacuity): cell = name/KIND/first parameter
+KIND_NAMES = ("__new__", "__init_subclass__", "__class_getitem__", "__init__")
+MORE_DUNDER = ("__call__", "__getattr__", "__eq__", "__getitem__", "__setattr__", "__hash__", "__enter__", "__post_init__")
+NEED_CELLS_GEN = (["%s/%s/%s/c" % (n, k, f) for n in KIND_NAMES + MORE_DUNDER for k in ("METHOD", "STATICMETHOD", "CLASSMETHOD")
+                   for f in ("-", "self", "cls", "other")]
+                  + ["%s/METHOD/%s/m" % (n, f) for n in KIND_NAMES + MORE_DUNDER for f in ("-", "self", "cls", "other")])
+NEED_CELLS_EMITTED = [
+    "__class_getitem__/METHOD/cls/c", "__class_getitem__/CLASSMETHOD/cls/c", "__class_getitem__/STATICMETHOD/item/c",
+    "__class_getitem__/METHOD/klass/c", "__class_getitem__/METHOD/self/c", "__class_getitem__/METHOD/x/m",
+    "__new__/METHOD/cls/c", "__new__/STATICMETHOD/cls/c", "__new__/CLASSMETHOD/cls/c", "__new__/METHOD/mcs/c", "__new__/METHOD/x/m",
+    "__init_subclass__/CLASSMETHOD/cls/c", "__init_subclass__/CLASSMETHOD/klass/c", "__init_subclass__/METHOD/x/m",
+    "__init__/METHOD/self/c", "__init__/METHOD/this/c", "__init__/CLASSMETHOD/cls/c",
+    "__call__/METHOD/self/c", "__call__/STATICMETHOD/x/c", "__call__/METHOD/cls/c",
+    "__getattr__/METHOD/self/c", "__getattr__/METHOD/name/m", "__getattr__/CLASSMETHOD/cls/c",
+    "__eq__/METHOD/self/c", "__eq__/CLASSMETHOD/cls/c", "__getitem__/METHOD/self/c", "__getitem__/STATICMETHOD/k/c",
+    "__setattr__/METHOD/self/c", "__hash__/METHOD/self/c", "__enter__/METHOD/self/c", "__post_init__/METHOD/self/c"]
 SIM_CFG = stubgen_cfg(5, 3, 2, 3, 2, 2, 2, ["int", "str", "NoneType", "float"], ALL_FRAGS,
                       invs=("WellScoped", "TermsOK", "SignaturesOK", "ExportInv"))
 
@@ -89,7 +123,8 @@ def model_checks():
 
 
 def gen_family(name, seed):
-  r = tlc.run("StubGen", FAMILIES[name], workers=1, timeout=3000, seed=seed, heap="6g")
+  r = tlc.run("StubGen", FAMILIES[name] if name in FAMILIES else DUNDER_FAMILIES[name], workers=1, timeout=3000,
+              seed=seed, heap="6g")
   if r.violated or not r.ok:
     raise common.Machinery("StubGen.tla (%s) violates %s:\n%s" % (name, r.violated, (r.error_trace or r.out)[-2500:]))
   return name, r
@@ -100,6 +135,14 @@ def gen_sim(num, seed):
               depth=500, heap="4g")
   if r.violated:
     raise common.Machinery("StubGen.tla emitted an ill-formed stub:\n" + r.error_trace[:2500])
+  return r
+
+
+def gen_sim_dunder(num, seed):
+  r = tlc.run("StubGen", SIM_DUNDER_CFG, workers=1, timeout=3000, seed=seed, simulate="num=%d" % num,
+              depth=500, heap="4g")
+  if r.violated:
+    raise common.Machinery("StubGen.tla (NextD) emitted an ill-formed stub:\n" + r.error_trace[:2500])
   return r
 
 
@@ -229,6 +272,22 @@ def account(run, recs):
       if v:
         feats[o + "_" + k] = feats.get(o + "_" + k, 0) + 1
   run.put("stubs_with_feature", feats)
+  # special method names: cells name/KIND/first parameter/c|m of the cross that were replayed
+  cells = {"emitted": set(), "stubgen": set()}
+  for r in recs:
+    o = "emitted" if r["origin"] == "emitted" else "stubgen"
+    for c in r.get("cells", ()):
+      parts = c.split("/")
+      cells[o].add("/".join(parts[:4]))
+      run.add("dunder_functions_" + o)
+      if parts[4] == "2":
+        run.add("dunder_overloaded_" + o)
+      if parts[5]:
+        run.add("dunder_flagged_" + o)
+    if r.get("exp"):
+      run.add("stubgen_expected_read_differs")
+  run.put("dunder_cells", {o: len(v) for o, v in cells.items()})
+  feats["_cells"] = cells
   run.put("programs", len(recs))
   run.put("evaluations", len(recs) + sum(len(r["variants"]) for r in recs))
   run.put("counterfactual_runs", sum(len(r["variants"]) for r in recs))
@@ -266,6 +325,8 @@ def main():
   rng = random.Random(run.seed)
   items = [{"kind": "emitted", "id": "dialect%02d" % k, "src": s} for k, s in enumerate(c05_progs.DIALECT)]
   items += [{"kind": "emitted", "id": "witness:" + k, "src": s} for k, s in sorted(c05_progs.WITNESS.items())]
+  items += [{"kind": "emitted", "id": "dunder%02d" % k, "src": s} for k, s in enumerate(c05_progs.DUNDER)]
+  items += [{"kind": "emitted", "id": "witness:" + k, "src": s} for k, s in sorted(c05_progs.DUNDER_WITNESS.items())]
   items += [{"kind": "emitted", "id": "hand%02d" % k, "src": s} for k, s in enumerate(progs_d.HAND)]
   items += [{"kind": "emitted", "id": "gen%d" % k, "src": s}
             for k, s in enumerate(progs_d.generate(run.seed, 1500 if thorough else 100))]
@@ -275,7 +336,9 @@ def main():
   items += [{"kind": "emitted", "id": "up:" + n, "src": s} for n, s in ups]
 
   families = tuple(FAMILIES) if thorough else QUICK_FAMILIES
+  families += tuple(DUNDER_FAMILIES) if thorough else QUICK_DUNDER
   nsim, sims = (4000, 4) if thorough else (300, 2)
+  ndsim = 3000 if thorough else 150
   plan = [(8, 2, 1200), (12, 2, 600)] if thorough else [(8, 2, 60), (10, 2, 30)]
   import multiprocessing as mp
   ctx = mp.get_context("spawn")
@@ -286,6 +349,7 @@ def main():
     f_prog = ex.submit(gen_programs, plan, run.seed)
     f_fams = [ex.submit(gen_family, n, run.seed) for n in families]
     f_sims = [ex.submit(gen_sim, nsim, run.seed * 31 + 7 + j) for j in range(sims)]
+    f_dsim = ex.submit(gen_sim_dunder, ndsim, run.seed * 41 + 3)
     first = pool.map_async(sl.c05_work, items, chunksize=4)
     # spec-generated inputs
     items2 = []
@@ -315,6 +379,16 @@ def main():
           items2.append({"kind": "stubgen", "id": "sim%d:%d" % (j, k), "stub": c})
     run.put("stubgen_simulated", len(seen) - nfam)
     common.require(len(seen) - nfam >= nsim * sims // 2, "simulation produced only %d stubs" % (len(seen) - nfam))
+    nplain = len(seen)
+    r = f_dsim.result()
+    run.add("stubgen_sim_states", r.generated)
+    for k, c in enumerate(r.cases):
+      key = json.dumps(c, sort_keys=True)
+      if key not in seen:
+        seen.add(key)
+        items2.append({"kind": "stubgen", "id": "dsim:%d" % k, "stub": c})
+    run.put("stubgen_simulated_dunder", len(seen) - nplain)
+    common.require(len(seen) - nplain >= ndsim // 2, "dunder simulation produced only %d stubs" % (len(seen) - nplain))
     run.add("tlc_generation_wall_s", round(time.time() - t0, 1))
     second = pool.map_async(sl.c05_work, items2, chunksize=8)
     results = first.get() + second.get()
@@ -328,8 +402,9 @@ def main():
   run.put("exhaustive_families", list(families))
   recs = judge(run, items, results)
   feats = account(run, recs)
+  cells = feats.pop("_cells")
   for r in recs:
-    if r["id"] in ("dialect05", "fam:classes:7", "sim0:3"):
+    if r["id"] in ("dialect05", "fam:classes:7", "sim0:3", "dunder00", "fam:dunder-methods:40"):
       run.sample({"id": r["id"], "origin": r["origin"], "devs": r["devs"],
                   "events": [[e["op"], e["ok"], e["d"]] for e in r["events"]]})
   run.sample({"emitted_program": items[5]["src"]})
@@ -348,6 +423,18 @@ def main():
   lack += ["stubgen_%s=%d<%d" % (k, feats.get("stubgen_" + k, 0), n) for k, n in need_g.items()
            if feats.get("stubgen_" + k, 0) < n]
   common.require(not lack, "vacuity: too few stubs with " + ", ".join(lack))
+  # the special-method-name families were exercised: every cell of the spec's cross (exhaustive family
+  # dunder-methods) and the cells the dialect programs are written for were replayed and judged
+  miss = [c for c in NEED_CELLS_GEN if c not in cells["stubgen"]]
+  common.require(not miss, "vacuity: %d cells of the special-name cross were not replayed from StubGen: %s" % (
+      len(miss), miss[:6]))
+  miss = [c for c in NEED_CELLS_EMITTED if c not in cells["emitted"]]
+  common.require(not miss, "vacuity: no emitted stub with %s" % miss[:8])
+  lack = ["%s=%d<%d" % (k, run.cov.get(k, 0), n) for k, n in (
+      ("dunder_functions_emitted", 100), ("dunder_functions_stubgen", 900), ("dunder_overloaded_emitted", 6),
+      ("dunder_overloaded_stubgen", 20), ("dunder_flagged_emitted", 5), ("dunder_flagged_stubgen", 20),
+      ("stubgen_expected_read_differs", 150)) if run.cov.get(k, 0) < n]
+  common.require(not lack, "vacuity (special method names): " + ", ".join(lack))
   common.require(run.cov.get("stubs_emitted", 0) >= 400 and run.cov.get("stubs_stubgen", 0) >= 800,
                  "vacuity: %s emitted / %s generated stubs" % (run.cov.get("stubs_emitted"), run.cov.get("stubs_stubgen")))
   run.assumptions += [
@@ -359,7 +446,11 @@ def main():
       "counted, not judged (C15's matter); the fixture typeshed limits importable modules",
       "canonical_pyi(t1) = t1 is recorded as a note, not judged: CanonicalOrderingVisitor sorts union members "
       "of the unresolved (unqualified) tree differently from the resolved tree the stub was printed from",
-      "counterfactual runs (a stub with a deviation's trigger removed) are used for attribution only"]
+      "counterfactual runs (a stub with a deviation's trigger removed) are used for attribution only",
+      "for StubGen declarations with a special method name the original that clause orig compares with is the "
+      "declaration the spec says the printed text denotes (StubGen.tla: rk = Denoted(name, kind) under the name "
+      "convention pinned there - __new__ static, __init_subclass__ class, nothing else; `self: C` / `cls: type[C]` "
+      "printed bare), not the AST as built"]
   return run.finish()
 
 
